@@ -470,6 +470,15 @@ def c16(tier):
         cfgs.append({"mode": mode, "writers": [2, 4, 8][n % 3], "readers": 1, "getters": 1, "notifiers": [0, 1, 2][(n // 3) % 3], "batches": 30 if q else 80, "payload": 1,
                      "maxPre": [1, 2][(n // 2) % 2], "kids": False, "closer": n % 4 != 3, "slowLL": [0, 2, 5][n % 3] if mode == "app" else 0,
                      "failLL": [0, 3][(n // 4) % 2] if mode == "app" else 0, "maxDirty": [0, 10][(n // 8) % 2], "compaction": ["", "force"][n % 2], "seed": s})
+        if n % 8 == 5:
+            # batches that touch only a child collection (stackDirtyTop non-nil but without a segment of its own: the merger's
+            # and the writers' notions of "empty" must agree or nobody wakes the merger); no closer that would end a hang;
+            # these runs are watched for calls that do not return only (TraceSync's heights count top-level segments)
+            cfgs[-1].update({"kids": True, "mixKids": True, "closer": False, "maxPre": 1, "hangOnly": True})
+        if n % 8 == 6:
+            # a lower level that returns an error for every update: Close must still return (the persister has to look at
+            # the stop channel between two attempts), and it releases the writers that back-pressure has blocked by then
+            cfgs[-1].update({"mode": "app", "failLL": 1, "slowLL": 0, "closer": True, "maxDirty": 0, "hangOnly": True})
     runs = run_conc(work, cfgs)
     recs = []
     index = []
@@ -480,6 +489,8 @@ def c16(tier):
         evs = load(path)
         summary = evs[-1]
         rep.evaluations += 1
+        if c.get("hangOnly") and not summary.get("hang"):
+            continue
         if summary.get("hang"):
             os.makedirs(os.path.join(vlib.VERIF, "evidence", "replays"), exist_ok=True)
             keep = os.path.join(vlib.VERIF, "evidence", "replays", "C16-hang-run%d-seed%d.ndjson" % (n, c["seed"]))
